@@ -201,6 +201,15 @@ def _states_post(rec, st, res, key_of=None):
     return out
 
 
+def _frame_table(st):
+    """the radius table belongs to the caller: _calculate_atom_states must not modify it (from_trajectory passes the same dict twice, users re-use it)"""
+    tab, orig = st.get('radius_table'), st.get('radius_table_orig')
+    if tab is None:
+        return []
+    same_keys = list(tab) == list(orig)
+    return [('the caller\'s radius table is not modified', z3.And(z3.BoolVal(same_keys), *[V.to_real(tab[k]) == V.to_real(orig[k]) for k in orig if k in tab]))]
+
+
 def _traj_sites(interp, rec):
     ctx = interp.ctx
     traj, st = sym_trajectory(ctx)
@@ -238,10 +247,12 @@ def unit_states_single(tier):
     def setup(interp):
         rec.clear()
         traj, sites, st = _traj_sites(interp, rec)
-        return [], {'sites': sites, 'trajectory': traj, 'site_radius': {'': st['r']}, 'site_inner_fraction': st['f']}, st
+        st['radius_table'] = {'': st['r']}
+        st['radius_table_orig'] = dict(st['radius_table'])
+        return [], {'sites': sites, 'trajectory': traj, 'site_radius': st['radius_table'], 'site_inner_fraction': st['f']}, st
 
     def post(interp, st, res):
-        out = _states_post(rec, st, res)
+        out = _states_post(rec, st, res) + _frame_table(st)
         s = rec['searches'][-1] if rec.get('searches') else None
         if s is not None:
             out.append(('search radius = radius * inner fraction', s['R'] == st['r'] * st['f']))
@@ -320,7 +331,9 @@ def _label_run(u, rec, LABS):
             seq = SSeq(grp.L, lambda q: (grp.pos(to_z3(q)), it.item(grp.pos(to_z3(q)))[1]))
             return SObj('Unzip', seq=seq, grp=grp)
         u.filter_comprehension = filter_comprehension
-        return [], {'sites': sites, 'trajectory': traj, 'site_radius': {name: radii[k] for k, name in enumerate(LABS)}, 'site_inner_fraction': st['f']}, st
+        st['radius_table'] = {name: radii[k] for k, name in enumerate(LABS)}
+        st['radius_table_orig'] = dict(st['radius_table'])
+        return [], {'sites': sites, 'trajectory': traj, 'site_radius': st['radius_table'], 'site_inner_fraction': st['f']}, st
 
     def patch_interp(interp):
         if getattr(interp, '_c02_patched', False):
@@ -347,7 +360,7 @@ def _label_run(u, rec, LABS):
     def post(interp, st, res):
         grps = st.get('grps', {})
         searches = rec.get('searches', [])
-        out = [('one tree search per label, in table order', z3.BoolVal(len(searches) == len(LABS) and sorted(grps) == list(range(len(LABS)))))]
+        out = [('one tree search per label, in table order', z3.BoolVal(len(searches) == len(LABS) and sorted(grps) == list(range(len(LABS)))))] + _frame_table(st)
         if len(searches) != len(LABS) or sorted(grps) != list(range(len(LABS))):
             return out
         T, N, pos = st['T'], st['N'], st['pos']
